@@ -430,6 +430,18 @@ pub fn run(ctx: &Ctx) -> Report {
             let _ = libcall::keygen(c.alg, &c.levels, &c.seed, Some(&mut aux));
             let r5 = evaluate(c, SignEntry::TrySignAux, Some(&mut aux));
             compare(&mut w.report, "with-aux", c, b, &r5);
+            // an aux buffer that an unrelated key (same hash, same shape) left behind: first one
+            // that its sign call set up, then one that its keygen filled
+            let other_seed = rng.bytes(c.alg.n());
+            let oblob = hss::make_blob(0, &c.levels, &other_seed);
+            let mut left = AuxBuf::new(vec![0u8; 500]);
+            let _ = libcall::sign_bytes(c.alg, &oblob, b"other key", Cb::Accept, Some(&mut left));
+            let r6 = evaluate(c, SignEntry::Bytes, Some(&mut left));
+            compare(&mut w.report, "aux-buffer-left-by-sign-of-another-key", c, b, &r6);
+            let mut left2 = AuxBuf::new(vec![0u8; 500]);
+            let _ = libcall::keygen(c.alg, &c.levels, &other_seed, Some(&mut left2));
+            let r7 = evaluate(c, SignEntry::TrySignAux, Some(&mut left2));
+            compare(&mut w.report, "aux-buffer-left-by-keygen-of-another-key", c, b, &r7);
         }
         w.report.distinct(&format!("thread|{}|{}|{}", c.alg.name(), fmt_levels(&c.levels), c.counter));
         if w.report.samples.len() < 4 {
@@ -494,7 +506,7 @@ pub fn run(ctx: &Ctx) -> Report {
         w.report.distinct(&format!("walk|{}|{}", alg.name(), fmt_levels(&lv)));
     });
     rep.merge(r3);
-    rep.rule = "cases = (hash, parameter list, seed, counter, message); baseline = results of a fresh process with a scrubbed environment; cases include groups of keys that share one seed but differ in parameters; re-evaluations: second fresh process with 200 noise variables, hostile HBS_LMS_*/locale/TZ settings and another cwd; third fresh process evaluating in reverse order; a process under valgrind memcheck (software SHA-2 back end; any report with a library frame is a violation); same thread twice; after unrelated operations (other keys and hashes, failing calls, refused callbacks, a callback that panics and is caught, aux in use); concurrently on all worker threads (overlap of call kinds recorded from an atomic active-call table); SigningKey::try_sign and try_sign_with_aux(valid aux) vs byte-level sign; complete lifetimes of a SigningKey object kept in memory vs a key reloaded from its bytes before every signature; \
+    rep.rule = "cases = (hash, parameter list, seed, counter, message); baseline = results of a fresh process with a scrubbed environment; cases include groups of keys that share one seed but differ in parameters; re-evaluations: second fresh process with 200 noise variables, hostile HBS_LMS_*/locale/TZ settings and another cwd; third fresh process evaluating in reverse order; a process under valgrind memcheck (software SHA-2 back end; any report with a library frame is a violation); same thread twice; after unrelated operations (other keys and hashes, failing calls, refused callbacks, a callback that panics and is caught, aux in use); concurrently on all worker threads (overlap of call kinds recorded from an atomic active-call table); SigningKey::try_sign and try_sign_with_aux(valid aux) vs byte-level sign; with an aux buffer that an unrelated key's sign or keygen call left behind; complete lifetimes of a SigningKey object kept in memory vs a key reloaded from its bytes before every signature; \
                 distinct_nontrivial = distinct (context family, hash, parameter list, counter)"
         .into();
     if rep.counter("walk_steps_compared") == 0 {
